@@ -3,8 +3,8 @@ EXTENDS Follow, Json
 
 \* one line per finished behaviour for the replay harness
 Emit ==
-  (pc \in {"stopped", "failed"} /\ ~FreeAppend) =>
+  (pc \in {"stopped", "failed", "halted"} /\ ~FreeAppend) =>
      PrintT(<<"REPLAY", ToJson([content |-> content, pre |-> pre, head |-> head, cap |-> cap,
                                  hist |-> hist, delivered |-> delivered,
-                                 failed |-> (pc = "failed"), dev |-> Dev])>>)
+                                 failed |-> (pc = "failed"), halted |-> (pc = "halted"), dev |-> Dev])>>)
 =============================================================================
